@@ -3,5 +3,5 @@ CONSTANTS
   Closers = {"c1", "c2"}
   MaxConns = 2
   MaxTemp = 3
-INVARIANTS ExactlyOnce SecondReportsClosed CloseEndsEverything ShutdownWaits ServeResult
+INVARIANTS ExactlyOnce SecondReportsClosed CloseEndsEverything ShutdownWaits ServeResult ListenerErrorStillCloses
 PROPERTIES TempNeverEnds EventuallyServeReturns
